@@ -115,4 +115,78 @@ theorem C03_loop_undeclared_accumulator : (Loop.mk (.emit "acc" .elem .elem) [])
 example : (loops.filterMap fun r => match r.2.2.2.2 with | .loop l => some l.wellFormed | _ => none) =
     [true, true, true, false, true, false] := by decide
 
+/-- **Gen obligation: a result that carries a set's iteration order is consumed order-free.** `SoftwareManager.get_open_ports` returns
+`[…] + list(software.listen_on_ports)`: an int-valued set, discharged by `setIntHash` ("CPython hashes an int to itself, so the order is a
+function of the values and of the order in which they were INSERTED"). The insertions come from the loop of
+`_set_software_listen_on_ports`, i.e. from a string-hashed set: for colliding values (21 / 53 / 445 are all 5 mod 8) the list order DOES
+depend on PYTHONHASHSEED. That is harmless only because every caller of `get_open_ports` tests membership, except `show_open_ports`, which
+prints a table sorted by port. A new caller (or a changed one) breaks this. -/
+theorem C03_gen_ordered_result_consumers :
+    orderedResultCallers =
+      [("get_open_ports",
+        [("simulator/network/hardware/base.py", "Node.show_open_ports", "for"),
+         ("simulator/network/hardware/nodes/host/host_node.py", "HostNode.receive_frame", "member"),
+         ("simulator/network/hardware/nodes/network/router.py", "Router.check_send_frame_to_session_manager", "member")])] := by decide
+
+/-! ### the translated `_set_software_listen_on_ports` loop IS the consumer `listenPorts` the component rig validates -/
+
+/-- the committed translation (what the source has today; `C03_gen_listen_loop` checks the regenerated one against it) -/
+def listenLoop : Loop :=
+  ⟨.seq (.assign "port_id" .elem) (.seq (.assign "port" (.const 0))
+    (.seq (.ite (.app2 "call:isinstance" (.var "port_id") (.app1 "free:int" (.const 0))) (.assign "port" (.var "port_id"))
+            (.ite (.app2 "call:isinstance" (.var "port_id") (.app1 "free:str" (.const 0)))
+              (.assign "port" (.app2 "getitem" (.app1 "free:PORT_LOOKUP" (.const 0)) (.var "port_id"))) .skip))
+          (.ite (.var "port") (.emit "listen_on_ports" (.var "port") (.var "port")) .skip))),
+   [("listen_on_ports", .asSet)]⟩
+
+set_option maxRecDepth 100000 in
+/-- Gen obligation: the loop regenerated from game.py is that translation. -/
+theorem C03_gen_listen_loop :
+    loopFor ⟨"game/game.py", "PrimaiteGame.from_config._set_software_listen_on_ports", .setIter,
+      "for <- set(software_cfg.get('options', {}).get('listen_on_ports', []))", 0⟩ = some (.loop listenLoop) := by decide
+
+/-- what one entry becomes: ints pass, names go through `PORT_LOOKUP`, anything else and every falsy result is dropped -/
+def listenLookup (P : Prims) (x : Nat) : Option Nat :=
+  let port :=
+    if P.f2 "call:isinstance" x (P.f1 "free:int" 0) ≠ 0 then x
+    else if P.f2 "call:isinstance" x (P.f1 "free:str" 0) ≠ 0 then P.f2 "getitem" (P.f1 "free:PORT_LOOKUP" 0) x
+    else 0
+  if port ≠ 0 then some port else none
+
+theorem listenLoop_iter (P : Prims) (x : Nat) :
+    accOf "listen_on_ports" (iterEmits P listenLoop.body x) = match listenLookup P x with
+      | some p => [(p, p)]
+      | none => [] := by
+  unfold listenLookup
+  by_cases h1 : P.f2 "call:isinstance" x (P.f1 "free:int" 0) ≠ 0
+  · by_cases hx : x ≠ 0
+    · simp [iterEmits, listenLoop, Stmt.exec, Expr.eval, get_cons, accOf, h1, hx]
+    · simp [iterEmits, listenLoop, Stmt.exec, Expr.eval, get_cons, accOf, h1, hx]
+  · by_cases h2 : P.f2 "call:isinstance" x (P.f1 "free:str" 0) ≠ 0
+    · by_cases hp : P.f2 "getitem" (P.f1 "free:PORT_LOOKUP" 0) x ≠ 0
+      · simp [iterEmits, listenLoop, Stmt.exec, Expr.eval, get_cons, accOf, h1, h2, hp]
+      · simp [iterEmits, listenLoop, Stmt.exec, Expr.eval, get_cons, accOf, h1, h2, hp]
+    · simp [iterEmits, listenLoop, Stmt.exec, Expr.eval, get_cons, accOf, h1, h2]
+
+theorem map_snd_flatMap_lookup (P : Prims) : ∀ l : List Nat,
+    ((l.flatMap fun x => accOf "listen_on_ports" (iterEmits P listenLoop.body x)).map (·.2)) = l.filterMap (listenLookup P)
+  | [] => rfl
+  | a :: t => by
+    rw [List.flatMap_cons, List.map_append, map_snd_flatMap_lookup P t, listenLoop_iter, List.filterMap_cons]
+    cases listenLookup P a <;> simp
+
+/-- **The real loop, translated, computes exactly the modelled consumer** `listenPorts` (the one the component rig compares with
+`from_config` on generated lists of names / ints / duplicates / 0): `set(filterMap lookup entries)`. -/
+theorem C03_listen_loop_is_listenPorts (P : Prims) (keys : List Nat) (l : List Nat) :
+    listenLoop.consumer P keys l = listenPorts (listenLookup P) l := by
+  have hr : listenLoop.body.readsOk [] = true := by decide
+  simp only [Loop.consumer, listenLoop, List.flatMap_cons, List.flatMap_nil, List.append_nil]
+  have := runLoop_eq_flatMap P listenLoop.body hr l []
+  simp only [listenLoop] at this
+  rw [this, accOf_flatMap]
+  simp only [observe, listenPorts]
+  have h2 := map_snd_flatMap_lookup P l
+  simp only [listenLoop] at h2
+  rw [h2]
+
 end Primaite.Noninterf
